@@ -45,6 +45,12 @@ CHECKS['C16'] = ('proof', 'Parser object as a state machine: process() result = 
                  'over shared documents, each result compared with the model, with a fresh-instance parse, and re-read at the end of the history.',
                  'trusted: as C05. Repaired defect: F2 (process accumulated earlier results).', '§5 C16')
 
+CHECKS['C20'] = ('proof', 'Declaration/definition decomposition around the same return type, name, pointwise-related parameter lists and cv; '
+                 'definition independent of declaration-only attributes and vice versa; no definition when initialised; owner qualification; '
+                 'namespace/struct/class render balanced, correctly named pairs around unchanged contents (Properties/C20.v). Correspondence: every block '
+                 'kind rendered twice per object and compared with the model; compositions compiled with g++ -fsyntax-only.',
+                 'partial: "any composition is accepted by a C++ compiler" is validated by compiling sampled compositions, not proved. trusted: Coq kernel, extraction+driver, harness, g++ 12.', '§5 C20')
+
 NOT_YET = {
 }
 
